@@ -455,6 +455,9 @@ class ModuleVistor(NodeVisitor):
         _localNameToFullName = self.builder.current._localNameToFullName_map
         for al in node.names:
             targetname, asname = al.name, al.asname
+            # Process the imported module, like we do for "from" imports, such that what
+            # we can tell about the names it defines does not depend on the processing order.
+            self.system.getProcessedModule(targetname)
             if asname is None:
                 # we're keeping track of all defined names
                 asname = targetname = targetname.split('.')[0]
